@@ -310,6 +310,7 @@ def clearAuth (st : St) (u : User) : St :=
 /-- the `try:` block of `ircdb.checkCapability`: `users.getUser(hostmask)` with its caches and
 effects, then the `secure` re-check -/
 def recogniseS (st : St) (h : Str) : St × Option User :=
+  if !isUserHostmask h then (st, none) else     -- not a user's prefix: nobody (no lookup at all)
   let g := getUser st h
   (g.1, match g.2 with
     | .ok u => if u.secure && !u.checkHostmask g.1.db.timeout g.1.now h false then none else some u
